@@ -41,12 +41,11 @@ WellFormed(e) ==
             /\ (e.cfg.operand = "matrix" => "m" \in DOMAIN e.in /\ IsLogT(e.in.m) /\ TBounded(e.in.m) /\ Len(e.in.m.shape) = 2)
             /\ (e.cfg.operand = "vector" => "v" \in DOMAIN e.in /\ \A k \in 1..Len(e.in.v) : e.in.v[k] \in (-TValueBound)..TValueBound))
     /\ (e.cfg.op = "sequence" =>
-            /\ {"m", "g"} \subseteq DOMAIN e.in /\ IsLogT(e.in.m) /\ TBounded(e.in.m) /\ Len(e.in.m.shape) = 2
-            /\ IsLogT(e.in.g) /\ TBounded(e.in.g) /\ Len(e.in.g.shape) = 2
-            /\ \A i \in 1..Len(e.cfg.steps) : e.cfg.steps[i] \in {"N", "M", "A", "F"}
-            /\ \A i \in 1..Len(e.out.steps) : /\ {"raised", "dense", "cn", "cnfin"} \subseteq DOMAIN e.out.steps[i]
-                                                /\ e.out.steps[i].raised \in BOOLEAN /\ e.out.steps[i].cnfin \in BOOLEAN
-                                                /\ IsLogQ(e.out.steps[i].dense))
+            /\ "m" \in DOMAIN e.in /\ IsLogT(e.in.m) /\ TBounded(e.in.m) /\ Len(e.in.m.shape) = 2
+            /\ \A si \in 1..Len(e.cfg.steps) : e.cfg.steps[si] \in {"N", "M", "A", "F"}
+            /\ \A si \in 1..Len(e.out.steps) : /\ {"raised", "dense", "cn", "cnfin"} \subseteq DOMAIN e.out.steps[si]
+                                                /\ e.out.steps[si].raised \in BOOLEAN /\ e.out.steps[si].cnfin \in BOOLEAN
+                                                /\ IsLogQ(e.out.steps[si].dense))
     /\ (e.cfg.omix # "none" =>
             /\ e.cfg.op \in {"cp_mode_dot", "tucker_mode_dot"} /\ e.cfg.omix \in {"int_float", "real_cplx", "f32_f64"}
             /\ IsLogQ(e.out.dense_im)
@@ -107,13 +106,13 @@ Verdict(e) ==
         \* every step of the sequence is judged on its own: the object represents the expected tensor after it, and
         \* after every normalize() its non-zero columns have unit norm (zero-ness from the state BEFORE that step)
         LET ST == SeqStates(c, in)
-            SClause(i) == IF out.steps[i].raised THEN "SeqRaised"
-                          ELSE IF ~InBound(CPDense(ST[i])) THEN "InDomain"
-                          ELSE IF ~CloseQ(out.steps[i].dense, CPDense(ST[i])) THEN "SeqDense"
-                          ELSE IF c.steps[i] = "N" /\ (~out.steps[i].cnfin \/ ~UnitColumns("cp", ST[i - 1], out.steps[i].cn)) THEN "SeqUnitColumns"
+            SClause(si) == IF out.steps[si].raised THEN "SeqRaised"
+                          ELSE IF ~InBound(CPDense(ST[si])) THEN "InDomain"
+                          ELSE IF ~CloseQ(out.steps[si].dense, CPDense(ST[si])) THEN "SeqDense"
+                          ELSE IF c.steps[si] = "N" /\ (~out.steps[si].cnfin \/ ~UnitColumns("cp", ST[si - 1], out.steps[si].cn)) THEN "SeqUnitColumns"
                           ELSE "ok"
-            bad == {i \in 1..Len(c.steps) : SClause(i) # "ok"}
-        IN  IF bad = {} THEN "ok" ELSE SClause(CHOOSE i \in bad : \A j \in bad : i <= j)
+            bad == {sj \in 1..Len(c.steps) : SClause(sj) # "ok"}
+        IN  IF bad = {} THEN "ok" ELSE SClause(CHOOSE sj \in bad : \A sk \in bad : sj <= sk)
     ELSE IF out.raised THEN "Raised"
     ELSE IF out.malformed THEN "OutputMalformed"
     ELSE
